@@ -608,7 +608,7 @@ class _Subst(ast.NodeTransformer):
         return ast.copy_location(ast.IfExp(test=t, body=self.visit(n.body), orelse=self.visit(n.orelse)), n)
 
 
-def symbolic_paths(fv: "FuncView", at, exprs, stop=(), limit=6000, opaque_calls=()):
+def symbolic_paths(fv: "FuncView", at, exprs, stop=(), limit=6000, opaque_calls=(), keep=()):
     """Enumerate the acyclic CFG paths from the function entry to ``at`` (statement,
     expression or CFG node).  For every path return (decisions, values) where
     ``decisions`` maps the text of each branch test taken on the path to its outcome and
@@ -647,9 +647,15 @@ def symbolic_paths(fv: "FuncView", at, exprs, stop=(), limit=6000, opaque_calls=
                 if isinstance(t, ast.Name):
                     env[t.id] = None if t.id in stop else _Subst(env, decisions).visit(copy.deepcopy(s.value))
                 elif isinstance(t, (ast.Tuple, ast.List)):
+                    # simultaneous assignment (x, y = y, x): every right-hand side is read before any target is bound
+                    new_vals = {}
                     for nm in CFG.defs_of(node):
                         v = FuncView._component(t, s.value, nm)
-                        env[nm] = None if (v is None or nm in stop) else _Subst(env, decisions).visit(copy.deepcopy(v))
+                        # names in `keep` stay symbolic where they are computed, but copies between names are followed
+                        if nm in keep and not isinstance(v, ast.Name):
+                            v = None
+                        new_vals[nm] = None if (v is None or nm in stop) else _Subst(env, decisions).visit(copy.deepcopy(v))
+                    env.update(new_vals)
             elif isinstance(s, ast.AnnAssign) and isinstance(s.target, ast.Name) and s.value is not None:
                 env[s.target.id] = None if s.target.id in stop else _Subst(env, decisions).visit(copy.deepcopy(s.value))
             elif isinstance(s, ast.AugAssign) and isinstance(s.target, ast.Name):
@@ -676,16 +682,19 @@ def ifexp_cases(expr, conds=()):
         if inner is not None:
             t = U(inner.test)
             out = []
-            for branch, outcome in ((inner.body, True), (inner.orelse, False)):
+            for outcome in (True, False):
                 class _R(ast.NodeTransformer):
+                    # every conditional expression with this very test takes the same alternative
                     def visit_IfExp(self, n):
-                        return copy.deepcopy(branch) if n is inner else self.generic_visit(n)
+                        if U(n.test) == t:
+                            return self.visit(copy.deepcopy(n.body if outcome else n.orelse))
+                        return self.generic_visit(n)
 
                     def visit_Lambda(self, n):
                         return n
 
-                e2 = _R().visit(_copy_keep(expr, inner))
-                out.extend(ifexp_cases(e2[0] if isinstance(e2, tuple) else e2, conds + ((t, outcome),)))
+                e2 = _R().visit(copy.deepcopy(expr))
+                out.extend(ifexp_cases(e2, conds + ((t, outcome),)))
             return out
     return [(conds, expr)]
 
@@ -720,11 +729,11 @@ def _copy_keep(expr, keep):
     return _C().visit(expr)
 
 
-def value_cases(fv, at, expr, stop=()):
+def value_cases(fv, at, expr, stop=(), keep=()):
     """[(conditions: dict test text -> bool, value text)] over all paths to ``at`` and all
     conditional-expression alternatives"""
     out = []
-    for dec, (v,) in symbolic_paths(fv, at, [expr], stop=stop):
+    for dec, (v,) in symbolic_paths(fv, at, [expr], stop=stop, keep=keep):
         for conds, val in ifexp_cases(v):
             d = dict(dec)
             d.update({t: o for t, o in conds})
@@ -800,10 +809,18 @@ def filtered_collection_defs(fv, name, at):
         return U(R().visit(copy.deepcopy(cond)))
 
     out = []
+    work = []
     for d in defs:
-        v = fv.value_of_def(d, name)
+        v0 = fv.value_of_def(d, name)
+        # a conditional expression selects between alternatives like two branch-wise definitions do
+        for _c, alt in (ifexp_cases(v0) if v0 is not None else [((), v0)]):
+            work.append((d, alt))
+    for d, v in work:
         if isinstance(v, ast.Call) and dotted_name(v.func) in ("list", "tuple") and len(v.args) == 1 and not v.keywords:
             out.append((U(v.args[0]), None, d.stmt))
+            continue
+        if isinstance(v, (ast.Name, ast.Attribute)) and U(v) in ("self",):
+            out.append((U(v), None, d.stmt))  # the collection itself
             continue
         if isinstance(v, ast.Subscript) and isinstance(v.slice, ast.Slice) and v.slice.lower is None and v.slice.upper is None and v.slice.step is None:
             out.append((U(v.value), None, d.stmt))
